@@ -1,5 +1,7 @@
 (* Extraction of the C10 model: ExtrOcamlBasic only, no Extract Constant. *)
 Require Import ExtrOcamlBasic.
-From SharkV Require Import C10Model.
+From Coq Require Import QArith Qabs.
+From SharkV Require Import C10Model C10LsModel.
 Extraction "c10_model.ml" ls_init ls_step sd_init_model sd_dir cg_init_model cg_dir sd_init sd_step
-  quad_f quad_grad box_feasb box_feasb_slack box_eps ls_save ls_restore cg_save_extra cg_restore_extra sd_save_full sd_restore_full.
+  quad_f quad_grad box_feasb box_feasb_slack box_eps ls_save ls_restore cg_save_extra cg_restore_extra sd_save_full sd_restore_full
+  ray linesearch ls_init_o ls_step_o bfgs_init_model bfgs_dir bfgs_save_extra bfgs_restore_extra Qdiv Coq.QArith.Qabs.Qabs Qle_bool.
